@@ -18,6 +18,11 @@
      5 / 117   a vote changes neither the stored ancestors nor a later vote (AliasModel.v)
      6 / 118   the real preempt action with topology-aware preemption on hierarchical capacity:
                a pipelined preemptor's queue is Open and the chain is within capability (EnqueueLaw.v)
+     121       every cycle case (sel 1, sel 8) is inside the main theorem: hyp_guardb of the decoded
+               cluster = true (Sched/QueueLemmasBuild.v: distinct task ids, no Pipelined task at
+               session open, world_okb, ledger_okb, sess_wfb), hence world_ok_held by
+               built_sessions_satisfy_hypotheses
+     122       stream 8: number of assertion failures of the code under test = 0
      8 / 103   the real allocate action with a handler ahead of the queue plugin failing its allocate
                callback; verdict = law 103 (CycleLaws.law_queues) on the final session
      7 / 119   JobEnqueueable votes and the real enqueue action against amounts recomputed from the
@@ -32,7 +37,7 @@
    output: per phase -101, then per query  -(110 + kind)  answer. *)
 From stdpp Require Import gmap.
 From Coq Require Import ZArith List.
-From V Require Import Base.Codec Base.Res Base.ResCodec Sched.CycleEntry C03.CapacityModel C03.ReclaimLaw C03.AliasModel C03.EnqueueLaw.
+From V Require Import Base.Codec Base.Res Base.ResCodec Sched.CycleEntry C03.CapacityModel C03.ReclaimLaw C03.AliasModel C03.EnqueueLaw Sched.CycleCodec Sched.QueueLemmasBuild.
 Import ListNotations.
 Open Scope Z_scope.
 
@@ -152,6 +157,8 @@ Definition entry (sel : Z) (toks : list Z) : list Z :=
   | 6 => eBool (Nat.eqb (length toks) 8)
   | 7 => eBool (match toks with _ :: _ :: _ => true | _ => false end)
   | 8 => eBool (match toks with _ :: _ :: _ => true | _ => false end)
+  | 121 => match run_dec dCycle toks with Some c => eBool (hyp_guardb c) | None => bad_input end
+  | 122 => match toks with [n] => eBool (n =? 0) | _ => bad_input end
   | 118 => match law_preempt toks with Some b => eBool b | None => bad_input end
   | 119 => match law_enqueue_toks toks with Some b => eBool b | None => bad_input end
   | 116 => match law_reclaim toks with Some b => eBool b | None => bad_input end
